@@ -102,3 +102,9 @@ chk("C08", "model_checking", "E4+E1",
     "(a) A family of structurally different genomes (8 quick; all 16 hidden-node subsets x weight settings thorough) differing by excess and by disjoint genes: every way to pre-speciate an ordered choice of up to 2 members x every ordered batch of up to 3 further members (plus a repeated member) x 5 thresholds x both methods x 3 coefficient rows x 2 id layouts; the real speciate is followed organism by organism by a reference that recomputes the library's distance to each representative (any minimiser accepted on ties; new species iff none below threshold, with an id above every id issued before) and the final species lists are compared. (b) the same reference on the babies of every epoch of the E1 runs (species-wise driving) and on NewPopulation / NewPopulationRandom / ReadPopulation.",
     "Family and batch sizes bounded; the distance function itself is trusted here (C07 checks it). Trusts overlay + accessors.",
     "DESIGN.md section 3 C08")
+
+chk("C11", "exploration", "E4",
+    "bounded-exhaustive enumeration of genomes (every absent/enabled/disabled assignment to every candidate link over three node layouts, recurrence and module variants), every pair of ids queried, vs a set-based reference",
+    "Over three node layouts (sensors first; sensors with larger ids than neurons; two outputs) every assignment {absent, enabled, disabled} to every candidate link (all sources x all non-sensor targets incl. self-loops) is built as a genome and expressed; plus recurrent/parallel-link variants and modular genomes (enabled, disabled, two modules). For each network: nodes (id, role, activation, order), inputs/outputs in genome order (also behaviourally via LoadSensors), link multisets per node with pointer wiring, control-node wiring, NodeCount/LinkCount/Complexity, and Node/Nodes/From/To/Edge/WeightedEdge/Weight/HasEdgeFromTo/HasEdgeBetween for all ordered pairs of ids including absent ones (must be nil/false/empty); organism phenotype caching and rebuild.",
+    "Node sets of 4-5 nodes; weights from the hard-float alphabet; From/To compared as sets.",
+    "DESIGN.md section 3 C11")
